@@ -161,7 +161,7 @@ func GenUniverse(t *rapid.T, cfg GenCfg) *Universe {
 	for i := range names {
 		names[i] = fmt.Sprintf("S%d", i)
 	}
-	u := &Universe{}
+	u := &Universe{Typedefs: rapid.IntRange(0, 3).Draw(t, "typedefs") == 0, Split: rapid.IntRange(0, 3).Draw(t, "split") == 0}
 	for i := 0; i < n; i++ {
 		sd := StructDef{Name: names[i]}
 		usedID := map[int16]bool{}
